@@ -20,7 +20,7 @@ def save_parameters(
     :type parameters: list(Parameter)
     :param bool safely: Create a temporary file if True
     """
-    if overwrite or (not safely or not os.path.lexists(file_name)):
+    if overwrite or not safely:
         # for var_name in self.optimizer.state_dict():
         #     print(var_name, "\t", self.optimizer.state_dict()[var_name])
         # torch.save(self.optimizer.state_dict(), 'checkpoint.json')
@@ -30,9 +30,12 @@ def save_parameters(
         # torch.save(self.optimizer.state_dict(), 'checkpoint-new.json')
         with open(file_name + '.new', 'w') as fp:
             json.dump(parameters, fp, cls=ParameterEncoder, indent=2)
-        os.rename(file_name, file_name + '.old')
+        # file_name may be missing after an interrupted write: never write to it in place
+        if os.path.lexists(file_name):
+            os.rename(file_name, file_name + '.old')
         os.rename(file_name + '.new', file_name)
-        os.remove(file_name + '.old')
+        if os.path.lexists(file_name + '.old'):
+            os.remove(file_name + '.old')
 
 
 def pack_tensor(parameters: List[Parameter], tensor: torch.Tensor) -> None:
